@@ -53,6 +53,9 @@ REAL_GROUP = ("pyrepseq/stats.py", "FormulasReal.lean", [
     ("powerlaw_mle_alpha", {"c": "vec", "cmin": "rat"}, {"static": {"method": "simple"}, "suffix": "_simple", "drop_kwargs": True}),
     ("powerlaw_mle_alpha", {"c": "vec", "cmin": "rat"}, {"static": {"method": "continuitycorrection"}, "suffix": "_continuitycorrection",
                                                       "drop_kwargs": True}),
+    # the objective of the 'exact' method; SciPy's Hurwitz zeta is a function parameter
+    ("_discrete_loglikelihood", {"x": "vec", "alpha": "rat", "xmin": "rat"}, {"opaque_fn": {"scipy.special.zeta": "zeta"},
+                                                                              "name": "discrete_loglikelihood"}),
 ])
 
 # pyrepseq/entropy.py: the entropies as functions of the coincidence statistics they call (`opaque`: the value of a call of that
@@ -280,6 +283,9 @@ class Fn:
 
     def call(self, e):
         name = dotted(e.func)
+        if name in self.opts.get("opaque_fn", {}) and not e.keywords:
+            # an external function (SciPy's zeta): a function parameter of the generated definition, applied to the translated arguments
+            return "(" + " ".join([self.opts["opaque_fn"][name]] + [self.as_rat(*self.expr(a_)) for a_ in e.args]) + ")", "rat"
         if name in self.opts.get("opaque", ()):
             # the value of this call is a parameter of the generated definition (one per callee; two calls of one callee must be the same call)
             text = ast.unparse(e)
@@ -594,6 +600,8 @@ class Fn:
             params.append(f"({n_} : {ty(t_)})")
         for n_ in self.opts.get("opaque", ()):
             params.append(f"({n_}_val : Rat)")
+        for n_ in self.opts.get("opaque_fn", {}).values():
+            params.insert(0, f"({n_} : Rat → Rat → Rat)")
         for a in self.f.args.args:
             if a.arg in self.static or a.arg in self.opts.get("drop", []):
                 continue
@@ -603,7 +611,7 @@ class Fn:
             params.append(f"({a.arg} : {ty(t)})")
         if self.f.args.vararg or self.f.args.kwonlyargs or (self.f.args.kwarg and not self.opts.get("drop_kwargs")):
             raise Untranslatable("variadic parameters")
-        head = f"def {self.f.name}{self.opts.get('suffix', '')} " + ("{β : Type} [DecidableEq β] " if generic else "") + " ".join(params) + f" : {ret} :=\n"
+        head = f"def {self.opts.get('name', self.f.name)}{self.opts.get('suffix', '')} " + ("{β : Type} [DecidableEq β] " if generic else "") + " ".join(params) + f" : {ret} :=\n"
         out = head + body
         if self.real:
             import re
